@@ -44,6 +44,9 @@ pub struct ServerCfg {
     pub av_pairs: Vec<(u16, Vec<u8>)>,
     /// value written into the TargetInfo and TargetName MaxLen fields instead of their Len (receivers ignore MaxLen)
     pub maxlen_override: Option<u16>,
+    /// payload layout: 0 = TargetName then TargetInfo (Windows), 1 = TargetInfo then TargetName, 2 = name, info, then 12
+    /// bytes that no field refers to, 3 = 8 unreferenced bytes between the header and the name
+    pub layout: u8,
 }
 
 impl ServerCfg {
@@ -60,6 +63,7 @@ impl ServerCfg {
                 (AV_TIMESTAMP, vec![0x00, 0x80, 0x3e, 0xd5, 0xde, 0xb1, 0x9d, 0x01]),
             ],
             maxlen_override: None,
+            layout: 0,
         }
     }
 }
@@ -77,20 +81,27 @@ pub fn av_bytes(pairs: &[(u16, Vec<u8>)], with_eol: bool) -> Vec<u8> {
 
 pub fn challenge_message(cfg: &ServerCfg) -> Vec<u8> {
     let version = cfg.flags & F_VERSION != 0;
-    let hdr = if version { 56 } else { 48 };
+    let hdr: u32 = if version { 56 } else { 48 };
     let tn = if cfg.flags & F_UNICODE != 0 { utf16le(&cfg.target_name) } else { cfg.target_name.as_bytes().to_vec() };
     let ti = av_bytes(&cfg.av_pairs, true);
+    // (offset of the name, offset of the info, payload bytes)
+    let (tn_off, ti_off, payload): (u32, u32, Vec<u8>) = match cfg.layout {
+        1 => (hdr + ti.len() as u32, hdr, [ti.clone(), tn.clone()].concat()),
+        2 => (hdr, hdr + tn.len() as u32, [tn.clone(), ti.clone(), b"SERVERPAD\0\0\0".to_vec()].concat()),
+        3 => (hdr + 8, hdr + 8 + tn.len() as u32, [vec![0xEE; 8], tn.clone(), ti.clone()].concat()),
+        _ => (hdr, hdr + tn.len() as u32, [tn.clone(), ti.clone()].concat()),
+    };
     let mut w = W::new();
     w.bytes(b"NTLMSSP\0").u32le(2);
-    w.u16le(tn.len() as u16).u16le(cfg.maxlen_override.unwrap_or(tn.len() as u16)).u32le(hdr);
+    w.u16le(tn.len() as u16).u16le(cfg.maxlen_override.unwrap_or(tn.len() as u16)).u32le(tn_off);
     w.u32le(cfg.flags);
     w.bytes(&cfg.challenge);
     w.zeros(8);
-    w.u16le(ti.len() as u16).u16le(cfg.maxlen_override.unwrap_or(ti.len() as u16)).u32le(hdr + tn.len() as u32);
+    w.u16le(ti.len() as u16).u16le(cfg.maxlen_override.unwrap_or(ti.len() as u16)).u32le(ti_off);
     if version {
         w.bytes(&[6, 1, 0xb1, 0x1d, 0, 0, 0, 15]);
     }
-    w.bytes(&tn).bytes(&ti);
+    w.bytes(&payload);
     w.done()
 }
 
@@ -260,13 +271,19 @@ pub fn verify_authenticate(negotiate: &[u8], challenge: &[u8], auth: &[u8], cfg:
     let a = parse_authenticate(auth)?;
     let mut notes = a.notes.clone();
     let unicode = cfg.flags & F_UNICODE != 0;
-    let got_user = decode_name(&a.user, unicode, "UserName")?;
-    let got_domain = decode_name(&a.domain, unicode, "DomainName")?;
-    if got_user != user {
-        return Err(format!("UserName {:?} != account {:?}", got_user, user));
-    }
-    if got_domain != domain {
-        return Err(format!("DomainName {:?} != account {:?}", got_domain, domain));
+    // an OEM session has no defined spelling for characters outside ASCII (it depends on the code page): such a name
+    // is only required to be a NUL-free byte string that is not the UTF-16 spelling
+    for (field, want, what) in [(&a.user, user, "UserName"), (&a.domain, domain, "DomainName")] {
+        if !unicode && !want.is_ascii() {
+            if field.is_empty() || field.contains(&0) || field[..] == utf16le(want)[..] {
+                return Err(format!("{}: {:02x?} is not an OEM spelling of {:?} (UTF-16 or NUL bytes in a non-Unicode token)", what, field, want));
+            }
+            continue;
+        }
+        let got = decode_name(field, unicode, what)?;
+        if got != want {
+            return Err(format!("{} {:?} != account {:?}", what, got, want));
+        }
     }
     let key = ntowfv2(nt_hash_, user, domain);
     // NTLMv2 response
@@ -314,6 +331,11 @@ pub fn verify_authenticate(negotiate: &[u8], challenge: &[u8], auth: &[u8], cfg:
         if !eol {
             return Err("client AV pairs: no MsvAvEOL".into());
         }
+        // MS-NLMP 3.3.2: temp ends with the AV pairs and Z(4); anything else after MsvAvEOL is not part of the structure
+        let rest = r.take(r.remaining()).unwrap_or(&[]);
+        if rest.len() > 4 || rest.iter().any(|b| *b != 0) {
+            return Err(format!("client AV pairs: {} bytes after MsvAvEOL ({:02x?}..): NtChallengeResponse covers more than the NTLMv2 structure", rest.len(), &rest[..rest.len().min(8)]));
+        }
     }
     // LMv2 response: either Z(24) (when a timestamp was offered) or a valid LMv2 proof
     if a.lm.len() != 24 {
@@ -356,7 +378,7 @@ pub fn verify_authenticate(negotiate: &[u8], challenge: &[u8], auth: &[u8], cfg:
     if a.flags & F_KEY_EXCH == 0 && cfg.flags & F_KEY_EXCH != 0 {
         notes.push("AUTHENTICATE flags drop KEY_EXCH".into());
     }
-    Ok(AuthOk { exported_session_key: exported, user: got_user, domain: got_domain, client_challenge, notes })
+    Ok(AuthOk { exported_session_key: exported, user: user.to_string(), domain: domain.to_string(), client_challenge, notes })
 }
 
 // ------------------------------------------------------------------ session security
